@@ -637,6 +637,7 @@ def r5(report, db, cg, M, S):
     dc = M.conn_method('disconnect')
     me = sy(dc.all_params[0])
     pop = M.conn_method('_pop_packet')
+    wp_ = M.conn_method('_write_packet')
     sock = at(me, 'socket')
     fobj = at(me, 'file_object')
     paths = S.run(dc)
@@ -656,7 +657,9 @@ def r5(report, db, cg, M, S):
     for p in paths:
         evs = p.flat()
         for e in evs:
-            if e.calls(pop):
+            if e.calls(pop) or (e.kind == 'call' and e.calls(wp_)):
+                # the flush: queued packets written by _pop_packet, or
+                # handed to the frame writer directly
                 flushes.add(id(e.node))
         for n in p.notes:
             if n[0] == 'caught' and id(n[3]) in flushes and p.returns:
